@@ -6,6 +6,7 @@ from typing import Any
 from typing import cast
 
 from markupsafe import Markup
+from markupsafe import escape
 
 from liquid2 import Expression
 from liquid2 import RenderContext
@@ -85,6 +86,18 @@ class BaseTranslateFilter:
                 f"invalid message format string {message_text!r}", token=None
             ) from err
 
+    def _markup(self, text: str, *messages: object) -> Markup:
+        """Return translated _text_ as markup for an auto escaping environment.
+
+        _text_ is either one of the message strings passed to the filter or a
+        translation of it. It is only safe as it is if every message string is
+        safe (a template literal, or escaped because `auto_escape_message` is
+        set). A message that came from untrusted render data is escaped instead.
+        """
+        if all(isinstance(message, Markup) for message in messages):
+            return Markup(text)
+        return escape(str(text))
+
     def _resolve_translations(self, context: RenderContext) -> Translations:
         return cast(
             Translations,
@@ -156,7 +169,11 @@ class Translate(BaseTranslateFilter, TranslatableFilter):
             text = translations.gettext(__left)
 
         if auto_escape:
-            text = Markup(text)
+            text = self._markup(
+                text,
+                __left,
+                *((plural,) if plural is not None and n is not None else ()),
+            )
 
         if self.message_interpolation:
             text = self.format_message(context, text, kwargs)
@@ -238,7 +255,7 @@ class GetText(BaseTranslateFilter, TranslatableFilter):
         text = translations.gettext(__left)
 
         if auto_escape:
-            text = Markup(text)
+            text = self._markup(text, __left)
 
         if self.message_interpolation:
             text = self.format_message(context, text, kwargs)
@@ -293,7 +310,7 @@ class NGetText(BaseTranslateFilter, TranslatableFilter):
         text = translations.ngettext(__left, __plural, __count)
 
         if auto_escape:
-            text = Markup(text)
+            text = self._markup(text, __left, __plural)
 
         if self.message_interpolation:
             text = self.format_message(context, text, kwargs)
@@ -351,7 +368,7 @@ class PGetText(BaseTranslateFilter, TranslatableFilter):
         text = translations.pgettext(__message_context, __left)
 
         if auto_escape:
-            text = Markup(text)
+            text = self._markup(text, __left)
 
         if self.message_interpolation:
             text = self.format_message(context, text, kwargs)
@@ -420,7 +437,7 @@ class NPGetText(BaseTranslateFilter, TranslatableFilter):
         )
 
         if auto_escape:
-            text = Markup(text)
+            text = self._markup(text, __left, __plural)
 
         if self.message_interpolation:
             text = self.format_message(context, text, kwargs)
